@@ -1,6 +1,8 @@
 import RallyModel.Ctx
 import RallyProofs.Ctx
 import RallyGen.TraceHooks
+import RallyModel.SubTimings
+import RallyProofs.SubTimings
 /-!
 # C18 — request timings span all sub-requests and never leak between clients
 
@@ -477,5 +479,80 @@ example : ∀ p c, CEv.spawn p c ∈ exTwo → (fun τ => decide (τ < 7)) c = (
   intro p c h
   simp only [exTwo, List.mem_cons, List.not_mem_nil, or_false, reduceCtorEq, false_or, CEv.spawn.injEq] at h
   rcases h with ⟨rfl, rfl⟩ | ⟨rfl, rfl⟩ | ⟨rfl, rfl⟩ <;> decide
+
+/-! ### from the sub-request's own context into the metrics store
+`RallyModel/SubTimings.lean`: `RequestTiming.__call__` builds the record (`mkRec`), `Sample.dependent_timings` turns every
+record of a sample into a sample of its own and `SamplePostprocessor.__call__` stores one `service_time` document for it
+(`postprocess`, the loop with `enumerate` / `downsample_factor`). -/
+section Stored
+open SubTimings
+
+/-- what is stored is exactly what the samples that survive down-sampling contribute, sample by sample, in order -/
+theorem stored_timings_of_kept_samples (factor : Nat) (hf : factor ≠ 0) (smps : List Smp) :
+    postprocess factor smps = .ok ((kept factor smps).flatMap docsOf) := by
+  unfold postprocess kept
+  rw [postGo_eq factor hf]
+  simp
+
+/-- without down-sampling every sub-request record of every sample is stored exactly once, in order, and nothing else is
+    stored as a sub-request timing -/
+theorem every_sub_request_stored_once (smps : List Smp) :
+    ∃ docs, postprocess 1 smps = .ok docs ∧
+      docs.filter (·.sub) = smps.flatMap depDocs ∧
+      (docs.filter (·.sub)).length = (smps.map (fun s => (s.deps.getD []).length)).sum := by
+  refine ⟨_, postprocess_one smps, filter_sub_flatMap smps, ?_⟩
+  rw [filter_sub_flatMap, length_flatMap_depDocs]
+
+/-- the stored document of a sub-request is made of THAT sub-request's context values: service time = (its last end − its
+    first start) in ms, relative time = its start − the task's start, its own absolute time, its own name / type unless
+    they are falsy; of the enclosing sample only the client and the task are used -/
+theorem sub_request_document_is_its_own (s : Smp) (name ty : PyStr) (absT st en : Rat) :
+    ∃ r, mkRec name ty absT (some st) (some en) = .ok r ∧
+      (depDoc s r).valueMs = toMs (Dbl.fsub en st) ∧
+      (depDoc s r).relTime = Dbl.fsub st s.taskStart ∧
+      (depDoc s r).absTime = absT ∧
+      (depDoc s r).client = s.client ∧
+      (depDoc s r).operation = orElse name s.taskOp ∧
+      (depDoc s r).opType = orElse ty s.taskType :=
+  ⟨_, rfl, rfl, rfl, rfl, rfl, rfl, rfl⟩
+
+/-- the documents of one sample do not depend on the samples stored with it (other clients, other requests) -/
+theorem stored_documents_ignore_other_samples (a b : List Smp) (s : Smp) :
+    ∃ X Y, postprocess 1 a = .ok X ∧ postprocess 1 b = .ok Y ∧
+      postprocess 1 (a ++ s :: b) = .ok (X ++ docsOf s ++ Y) := by
+  refine ⟨_, _, postprocess_one a, postprocess_one b, ?_⟩
+  rw [postprocess_one]
+  simp [List.flatMap_append, List.append_assoc]
+
+/-- a record exists iff the sub-request's context carries a start and an end (otherwise `end - start` raises) -/
+theorem record_needs_start_and_end (name ty : PyStr) (absT : Rat) (st en : Option Rat) :
+    (∃ r, mkRec name ty absT st en = .ok r) ↔ (st.isSome ∧ en.isSome) := by
+  cases st <;> cases en <;> simp [mkRec]
+
+/-- the task's operation name replaces a sub-request's name exactly when the latter is `None` or empty -/
+theorem name_falls_back_only_when_falsy (x : PyStr) (d : List Char) :
+    orElse x d = (match x with | some n => if n = [] then d else n | none => d) := by
+  cases x with
+  | none => rfl
+  | some n => cases n <;> simp [orElse]
+
+/-- `downsample_factor = 0` fails at the first sample, stores nothing -/
+theorem zero_factor_raises (s : Smp) (rest : List Smp) : postprocess 0 (s :: rest) = .error .zeroDivision := rfl
+
+def exRec1 : TimingRec := ⟨some ['a'], some ['s', 'e', 'a', 'r', 'c', 'h'], 100, 1, 3, 2⟩
+def exRec2 : TimingRec := ⟨none, some [], 101, 2, 7, 5⟩
+def exSmp : Smp := ⟨3, 0, ['t'], ['c', 'o', 'm', 'p'], 100, 1, 6, some [exRec1, exRec2]⟩
+def exSmp2 : Smp := ⟨4, 0, ['u'], ['r', 'a', 'w'], 100, 1, 6, none⟩
+
+example : (kept 2 [exSmp, exSmp2, exSmp]).length = 2 := by decide
+example : (docsOf exSmp).map (·.operation) = [['t'], ['a'], ['t']] := by decide
+example : (docsOf exSmp).map (·.opType) = [['c', 'o', 'm', 'p'], ['s', 'e', 'a', 'r', 'c', 'h'], ['c', 'o', 'm', 'p']] := by decide
+example : (docsOf exSmp).map (·.sub) = [false, true, true] ∧ (docsOf exSmp2).map (·.sub) = [false] := by decide
+example : ([exSmp, exSmp2, exSmp].map (fun s => (s.deps.getD []).length)).sum = 4 := by decide
+example : (2 : Nat) ≠ 0 := by decide
+example : ∃ r, mkRec none none 0 (some 1) (some 2) = .ok r := ⟨_, rfl⟩
+example : ¬ ∃ r, mkRec none none 0 none (some 2) = .ok r := by simp [mkRec]
+
+end Stored
 
 end C18
